@@ -5,8 +5,10 @@
 pub mod object;
 pub mod interfaces {
     pub mod icounter { include!("@OUT@/icounter.rs"); }
+    pub mod itimer { include!("@OUT@/itimer.rs"); }
 }
 use interfaces::icounter::{ICounter, IICounter, Error};
+use interfaces::itimer::{ITimer, IITimer};
 use std::sync::atomic::{AtomicBool, AtomicUsize, Ordering::SeqCst};
 use std::sync::Arc;
 
@@ -44,6 +46,14 @@ impl IICounter for Impl {
         Ok(v)
     }
 }
+impl IITimer for Impl {
+    fn tick(&mut self) -> Result<u32, interfaces::itimer::Error> {
+        self.enter();
+        let v = self.value;
+        self.exit();
+        Ok(v)
+    }
+}
 impl Drop for Impl {
     fn drop(&mut self) {
         self.sh.drops.fetch_add(1, SeqCst);
@@ -63,14 +73,14 @@ fn main() {
             live_handles: AtomicUsize::new(0), early_drop: AtomicUsize::new(0), torn_looks: AtomicUsize::new(0), looks: AtomicUsize::new(0) });
         let mut lost = 0usize;
         for r in 0..rounds {
-            let obj: ICounter = ICounter::from(Impl { value: 0, sh: sh.clone() });
+            let obj: ITimer = ITimer::from(Impl { value: 0, sh: sh.clone() });
             let n = 2 + r % 3;
             let barrier = Arc::new(std::sync::Barrier::new(n));
             let mut js = Vec::new();
             for _ in 0..n - 1 {
                 let h = obj.clone();
                 let b = barrier.clone();
-                js.push(std::thread::spawn(move || { let _ = h.bump(1).unwrap(); b.wait(); drop(h); }));
+                js.push(std::thread::spawn(move || { let up: ICounter = h.into(); let _ = up.bump(1).unwrap(); b.wait(); drop(up); }));
             }
             let b = barrier.clone();
             js.push(std::thread::spawn(move || { let _ = obj.bump(1).unwrap(); b.wait(); drop(obj); }));
@@ -87,7 +97,7 @@ fn main() {
     let sh = Arc::new(Shared { in_body: AtomicBool::new(false), overlaps: AtomicUsize::new(0), drops: AtomicUsize::new(0),
         drop_in_body: AtomicUsize::new(0), completed: AtomicUsize::new(0), stale: AtomicUsize::new(0),
         live_handles: AtomicUsize::new(1), early_drop: AtomicUsize::new(0), torn_looks: AtomicUsize::new(0), looks: AtomicUsize::new(0) });
-    let obj: ICounter = ICounter::from(Impl { value: 0, sh: sh.clone() });
+    let obj: ITimer = ITimer::from(Impl { value: 0, sh: sh.clone() });
     let mut joins = Vec::new();
     for t in 0..nthreads {
         sh.live_handles.fetch_add(1, SeqCst);
@@ -102,12 +112,26 @@ fn main() {
                 match rng % 10 {
                     0 | 1 => { sh2.live_handles.fetch_add(1, SeqCst); let c = handles[0].clone(); handles.push(c); }
                     2 | 3 => { if handles.len() > 1 { let h = handles.pop().unwrap(); drop(h); sh2.live_handles.fetch_sub(1, SeqCst); } }
+                    6 => {
+                        // a handle converted BY VALUE to the base interface and on to Object: the reference moves
+                        // with it (one handle before, one handle after)
+                        if handles.len() > 1 {
+                            let h = handles.pop().unwrap();
+                            let up: ICounter = h.into();
+                            let done = sh2.completed.load(SeqCst) as u32;
+                            let v = up.peek().unwrap();
+                            if v < done { sh2.stale.fetch_add(1, SeqCst); }
+                            let o: object::Object = up.into();
+                            drop(o);
+                            sh2.live_handles.fetch_sub(1, SeqCst);
+                        }
+                    }
                     5 => {
                         // a look at the implementation through the generated downcast: the closure runs
                         // with the implementation to itself - no method body is in progress when it
                         // starts, none starts while it runs
                         let h = &handles[handles.len() - 1];
-                        let torn = interfaces::icounter::downcast_concrete(h.as_ref(), |imp: &Impl| {
+                        let torn = interfaces::itimer::downcast_concrete(AsRef::<ICounter>::as_ref(h).as_ref(), |imp: &Impl| {
                             let before = imp.sh.in_body.load(SeqCst);
                             let v1 = imp.value;
                             std::thread::yield_now();
